@@ -18,5 +18,7 @@ fn main() {
         }
     }));
     let args = util::Args::parse(&argv[2..]);
-    blscache::record(&args);
+    // deep S-expressions recurse deeply: run on a thread with a large stack
+    let h = std::thread::Builder::new().stack_size(2 << 30).spawn(move || blscache::record(&args)).expect("spawn");
+    if h.join().is_err() { std::process::exit(101); }
 }
